@@ -46,7 +46,7 @@ def uniq():
     return 'Q' + s
 
 
-GETTZ_NAMES = ['America/New_York', 'Europe/London', 'UTC', 'EST5EDT,M3.2.0,M11.1.0', 'Asia/Tokyo', 'Australia/Sydney',
+GETTZ_NAMES = ['America/New_York', 'EST5EDT,M3.2.0,M11.1.0', 'UTC', 'Europe/London', 'Asia/Tokyo', 'Australia/Sydney',
                'Africa/Cairo', 'America/Sao_Paulo', 'Europe/Dublin', 'Pacific/Auckland', 'Asia/Kolkata']
 
 
@@ -61,7 +61,7 @@ class Factory(object):
         if kind == 'gettz':
             tz.gettz.cache_clear()
             tz.gettz.set_cache_size(8)
-            self.keys = GETTZ_NAMES[:nkeys]
+            self.keys = [tag + n[3:] if n.startswith('EST5EDT') else n for n in GETTZ_NAMES[:nkeys]]
         elif kind == 'tzoffset':
             self.keys = [(tag + 'n%d' % i, 3600 * i - 7200) for i in range(nkeys)]
         elif kind == 'tzstr':
@@ -182,7 +182,8 @@ def eval_history(case):
                     continue
                 if op[0] == 'fresh':
                     if z is obj:
-                        out.append({'kind': 'nocache-returned-the-shared-object', 'op': op})
+                        out.append({'kind': 'nocache-returned-the-shared-object', 'op': op,
+                                    'key_is_tz_string': kind == 'gettz' and any(c.isdigit() for c in str(st.f.keys[op[1]]))})
                 elif ep == st.f.epoch and z is not obj:
                     out.append({'kind': 'two-live-objects-for-one-key', 'op': op, 'factory': kind})
                 try:
@@ -284,7 +285,11 @@ def sched_harness(kind, pattern, nthreads):
         if kind == 'gettz':
             tz.gettz.cache_clear()
             tz.gettz.set_cache_size(1 if any(len(set(p)) > 1 for p in pattern) else 8)
-            keys = GETTZ_NAMES[:3]
+            # gettz(<TZ string>) goes through the tzstr factory: bring that one into a fixed state too
+            tag = uniq()
+            for i in range(9):
+                tz.tzstr('%sD%s%d' % (tag, chr(ord('A') + i), i + 1))
+            keys = [GETTZ_NAMES[0], tag + '5EDT,M3.2.0,M11.1.0', GETTZ_NAMES[2]]   # the TZ string is unique per build
             call = lambda k: tz.gettz(keys[k])
         elif kind == 'tzoffset':
             tag = uniq()
@@ -347,9 +352,23 @@ def restore_real_locks():
     tz.gettz.set_cache_size(8)
 
 
+def warmup():
+    """one throw-away request per path, so that first-use imports and lazy initialisation (zoneinfo tarball
+    lookup, parser import) do not make the first execution differ from its replays"""
+    from dateutil import tz
+    tag = uniq()
+    tz.gettz(tag + '5EDT,M3.2.0,M11.1.0')
+    tz.gettz('UTC')
+    tz.gettz('America/New_York')
+    tz.tzstr(tag + 'W5')
+    tz.tzoffset(tag, 1)
+    tz.gettz.cache_clear()
+
+
 def eval_schedule(case):
     kind, pattern, bound, max_exec = case
     warnings.simplefilter('ignore')
+    warmup()
     gc.disable()
     try:
         make, check, files = sched_harness(kind, pattern, len(pattern))
@@ -441,7 +460,8 @@ def eval_values(case):
 
 
 def signature(case, detail):
-    return {'kind': detail.get('kind'), 'factory': detail.get('factory'), 'zone': detail.get('zone')}
+    return {'kind': detail.get('kind'), 'factory': detail.get('factory'), 'zone': detail.get('zone'),
+            'key_is_tz_string': detail.get('key_is_tz_string')}
 
 
 def replay(part, case):
